@@ -115,10 +115,10 @@ class VSeq(V):
 
 
 class VRange(V):
-    __slots__ = ("lo", "hi", "step")
+    __slots__ = ("lo", "hi", "step", "par")
 
-    def __init__(self, lo, hi, step):
-        self.lo, self.hi, self.step = lo, hi, step
+    def __init__(self, lo, hi, step, par=False):
+        self.lo, self.hi, self.step, self.par = lo, hi, step, par
 
 
 class VArr(V):
